@@ -5,6 +5,8 @@ package c20
 
 import (
 	"bytes"
+	"context"
+	"errors"
 	"fmt"
 	"os"
 	"runtime"
@@ -28,6 +30,7 @@ import (
 	"github.com/LiskHQ/lisk-engine/pkg/event"
 	"github.com/LiskHQ/lisk-engine/pkg/log"
 	"github.com/LiskHQ/lisk-engine/pkg/p2p"
+	"github.com/LiskHQ/lisk-engine/pkg/trie/rmt"
 
 	"verif/sim/simkit"
 	"verif/sim/simrt"
@@ -154,7 +157,7 @@ func (w *nopWriter) Write(d []byte) { w.data = d }
 func (w *nopWriter) Error(e error)  { w.err = e }
 
 func runC20(t *rapid.T) {
-	scenario := simkit.Int(t, "scenario", 0, 3)
+	scenario := simkit.Int(t, "scenario", 0, 4)
 	// everything random is drawn before the tasks start
 	nReaders := simkit.Int(t, "nreaders", 1, 4)
 	nStable := simkit.Int(t, "nstable", 2, 5) // blocks that are never removed
@@ -403,6 +406,43 @@ func runC20(t *rapid.T) {
 				}
 			})
 		}
+	case 4: // block sync: one goroutine per connected peer asks for its tip and records it for the peer selection
+		database, _ := db.NewInMemoryDB()
+		chain := blockchain.NewChain(&blockchain.ChainConfig{ChainID: []byte{0, 0, 0, 7}, MaxBlockCache: cacheSize, MaxTransactionsLength: 15000, KeepEventsForHeights: -1})
+		genesis := mkBlock(0, bytes.Repeat([]byte{0}, 32), 0, 0)
+		chain.Init(genesis, database)
+		if err := chain.AddBlock(database.NewBatch(), genesis, nil, 0, false); err != nil {
+			t.Fatalf("infra: %v", err)
+		}
+		nPeers := 2 + nReaders
+		tr := &tipTransport{tips: map[p2p.PeerID][]byte{}}
+		for i := 0; i < nPeers; i++ {
+			pid := p2p.PeerID(fmt.Sprintf("peer%d", i))
+			tr.peers = append(tr.peers, pid)
+			tr.tips[pid] = mkBlock(uint32(5+i%2), bytes.Repeat([]byte{byte(i)}, 32), 10+i, 0).Encode()
+		}
+		logger, _ := log.NewSilentLogger()
+		conn := p2p.NewConnection(logger, &p2p.Config{Version: "1.0", ChainID: []byte{0, 0, 0, 7}})
+		conn.VerifAttach("me", tr)
+		nop := func(ctx context.Context, b *blockchain.Block, publish, removeTemp bool) error { return nil }
+		rev := func(ctx context.Context, b *blockchain.Block, saveTemp bool) error { return nil }
+		syncer := lsync.NewSyncer(chain, validator.NewBlockSlot(genesis.Header.Timestamp, 10), conn, logger, nop, rev)
+		incoming := mkBlock(7, bytes.Repeat([]byte{9}, 32), 99, 0)
+		incoming.Header.TransactionRoot = rmt.CalculateRoot([][]byte{})
+		incoming.Header.AssetRoot = blockchain.BlockAssets{}.GetRoot()
+		incoming.Init()
+		if err := incoming.Validate(); err != nil {
+			t.Fatalf("infra: incoming block does not validate: %v", err)
+		}
+		// the finalized block is old (more than three rounds of slots ago)
+		finalized := *genesis.Header
+		finalized.Timestamp = genesis.Header.Timestamp - 5000
+		syncer = lsync.NewSyncer(chain, validator.NewBlockSlot(finalized.Timestamp, 10), conn, logger, nop, rev)
+		spawn("syncer", func() {
+			// the generator of the incoming block is no current validator and the finalized block is old: block sync
+			_ = syncer.Sync(&lsync.SyncContext{Ctx: context.Background(), Block: incoming, FinalizedBlockHeader: &finalized, PeerID: "peer0",
+				CurrentValidators: []codec.Lisk32{bytes.Repeat([]byte{1}, 20), bytes.Repeat([]byte{2}, 20)}})
+		})
 	default: // event emitter with live, well-behaved subscribers + a staged store shared through prefix views
 		ee := event.New()
 		var chans []chan interface{}
@@ -580,3 +620,20 @@ func checkLinearizable(t *rapid.T, fail func(string, string, string, ...interfac
 		simkit.Probe("porcupine_timeout")
 	}
 }
+
+// tipTransport answers getLastBlock with a fixed tip per peer and nothing else.
+type tipTransport struct {
+	peers []p2p.PeerID
+	tips  map[p2p.PeerID][]byte
+}
+
+func (t *tipTransport) Publish(from p2p.PeerID, topic string, data []byte) error { return nil }
+func (t *tipTransport) Request(ctx context.Context, from, to p2p.PeerID, procedure string, data []byte) p2p.Response {
+	if procedure == lsync.RPCEndpointGetLastBlock {
+		return p2p.VerifResponse(to, t.tips[to], nil)
+	}
+	return p2p.VerifResponse(to, nil, errors.New("not served"))
+}
+func (t *tipTransport) Peers(of p2p.PeerID) p2p.PeerIDs        { return t.peers }
+func (t *tipTransport) Ban(by, whom p2p.PeerID)                {}
+func (t *tipTransport) Penalty(by, whom p2p.PeerID, score int) {}
